@@ -1,4 +1,6 @@
 import TemplVerif.Drive.Common
+import TemplVerif.Drive.AstParse
+import TemplVerif.Model.Norm
 namespace TemplVerif.Drive.C0809
 open TemplVerif TemplVerif.Drive
 
@@ -84,6 +86,24 @@ def handleC08 : List String → Verdict
         { predfail := if g0 == g1 then none else some s!"generated code changed by formatting ({kind}): {firstDiff g0 g1}",
           nontrivial := true, tags := [origin], sig := "gen;code-changed;" ++ kind }
       | _, _ => .badOp
+  | ["cls", origin, _srcH, a0S, a1S, bits] =>
+    -- layout classes of the original and the formatted template, on the trees the real parser built
+    let a0 := a0S.splitOn "|"
+    let a1 := a1S.splitOn "|"
+    let eqs := bits.toList.map (· == '1')
+    match a0.mapM AstParse.body, a1.mapM AstParse.body with
+    | some t0, some t1 =>
+      let cls := fun (t : Ast.Nodes) => Norm.body (AstParse.mapNodes AstParse.noBlanks t)
+      let same := (List.zip t0 t1).map fun p => decide (cls p.1 = cls p.2)
+      let rows := List.zip same eqs
+      -- the theorem (C08_same_class_same_program) says: same class => same program
+      let broken := rows.findIdx? fun r => r.1 && !r.2
+      { mismatch := broken.map fun i => s!"template #{i}: original and formatted tree are in the same layout class, but the real generator emits different code for them",
+        nontrivial := rows.any (·.1),
+        tags := [origin, "cls"] ++ (if rows.all (·.1) then ["class-kept"] else ["class-left"]) ++
+                (if rows.any (fun r => !r.1 && r.2) then ["class-left-but-same-code"] else []),
+        sig := "cls" }
+    | _, _ => .badOp
   | _ => .badOp
 
 end TemplVerif.Drive.C0809
